@@ -252,22 +252,37 @@ theorem step_one (tr : Tr α) (k : Nat) (c : List α) : Step tr (ext tr [(tmpNam
 
 /-! ### one operation of the stack machine -/
 
+theorem createAF_fresh (tr : Tr α) (k : Nat) (hn : tr.n ≠ 0) (hf : lookup (tmpName k) tr.feats = none) :
+    createAF tr (tmpName k) (konst tr zero) = .ok (ext tr [(tmpName k, konst tr zero)]) := by
+  simp [createAF, isReserved_tmpName, hn, hf, ext]
+
+theorem writeAF_fresh (tr : Tr α) (k : Nat) (c : List α) (hn : tr.n ≠ 0) (hf : lookup (tmpName k) tr.feats = none) :
+    writeAF (ext tr [(tmpName k, konst tr zero)]) (tmpName k) c = .ok (ext tr [(tmpName k, c)]) := by
+  have h1 : lookup (tmpName k) (tr.feats ++ [(tmpName k, konst tr zero)]) = some (konst tr zero) := by
+    simp [lookup_append, hf, lookup]
+  have h2 : setKey (tmpName k) c (tr.feats ++ [(tmpName k, konst tr zero)]) = tr.feats ++ [(tmpName k, c)] := by
+    rw [setKey_append_none _ _ _ _ hf]; simp [setKey]
+  unfold writeAF
+  simp only [ext_n, hn, if_false, ext_feats, h1, Option.isSome_some, if_true, h2]
+  simp [tmpName, ext]
+
 theorem runVoid_fresh (tr : Tr α) (k : Nat) (compute : Tr α → Except Err (List α)) (c : List α)
     (hn : tr.n ≠ 0) (hf : lookup (tmpName k) tr.feats = none)
     (hc : compute (ext tr [(tmpName k, konst tr zero)]) = .ok c) :
     runVoid tr (tmpName k) compute = (.ok c, ext tr [(tmpName k, c)]) := by
-  have hcr : createAF tr (tmpName k) (konst tr zero) = .ok (ext tr [(tmpName k, konst tr zero)]) := by
-    simp [createAF, isReserved_tmpName, hn, hf, ext]
-  have hw : writeAF (ext tr [(tmpName k, konst tr zero)]) (tmpName k) c = .ok (ext tr [(tmpName k, c)]) := by
-    have h1 : lookup (tmpName k) (tr.feats ++ [(tmpName k, konst tr zero)]) = some (konst tr zero) := by
-      simp [lookup_append, hf, lookup]
-    have h2 : setKey (tmpName k) c (tr.feats ++ [(tmpName k, konst tr zero)]) = tr.feats ++ [(tmpName k, c)] := by
-      rw [setKey_append_none _ _ _ _ hf]; simp [setKey]
-    unfold writeAF
-    simp only [ext_n, hn, if_false, ext_feats, h1, Option.isSome_some, if_true, h2]
-    simp [tmpName, ext]
-  simp only [runVoid, hcr, hc, hw]
+  simp only [runVoid, createAF_fresh tr k hn hf, hc, writeAF_fresh tr k c hn hf]
 
+/-- feature ∘ number through the operator object, writing to the fresh temporary `#k` -/
+theorem opScal_fresh (tr : Tr α) (o : Char) (s1 : Str) (k : Nat) (a c : List α) (b : α)
+    (hn : tr.n ≠ 0) (hf : lookup (tmpName k) tr.feats = none) (g1 : getAF tr s1 = .ok a) (hv : vsOp o a b = .ok c) :
+    opScal tr o s1 b (tmpName k) = (.ok c, ext tr [(tmpName k, c)]) :=
+  runVoid_fresh tr k _ c hn hf (by simp only [getAF_ext _ g1]; exact hv)
+
+/-- number ∘ feature through the operator object, writing to the fresh temporary `#k` -/
+theorem opScalRev_fresh (tr : Tr α) (o : Char) (s2 : Str) (k : Nat) (a c : List α) (b : α)
+    (hn : tr.n ≠ 0) (hf : lookup (tmpName k) tr.feats = none) (g2 : getAF tr s2 = .ok a) (hv : svOp o b a = .ok c) :
+    opScalRev tr o s2 b (tmpName k) = (.ok c, ext tr [(tmpName k, c)]) :=
+  runVoid_fresh tr k _ c hn hf (by simp only [getAF_ext _ g2]; exact hv)
 
 /-- the input column of a void function on a track that has gained features: the column itself -/
 theorem voidCompute_ext (tr : Tr α) (f s : Str) (x : List α) (ad : List (Str × List α)) (gs : getAF tr s = .ok x) :
@@ -361,25 +376,16 @@ theorem applyOp_veclit (tr : Tr α) (i1 i2 : Item α) (o : Char) (k : Nat) (a c 
   obtain ⟨s1, rfl, l1, g1⟩ := itemVal_vec h1
   obtain ⟨_, t2, _⟩ := itemVal_lit h2
   have hA2 := itemHasAF_lit hl h2
-  have hz : (o = '/' && isZero b) = false := by
-    cases hc : (o = '/' && isZero b) with
-    | false => rfl
-    | true =>
-      simp only [Bool.and_eq_true, decide_eq_true_eq] at hc
-      obtain ⟨ho', hz⟩ := hc
-      subst ho'
-      simp [vsOp, hz] at hv
-  have hr := runVoid_fresh tr k (fun t => do let a ← getAF t s1; vsOp o a b) c hn (hf k (Nat.le_refl k))
-    (by simp only [getAF_ext _ g1]; exact hv)
+  have hr := opScal_fresh tr o s1 k a c b hn (hf k (Nat.le_refl k)) g1 hv
   unfold applyOperation
   cases i2 with
   | tok s2 =>
     have hA2' : hasAF tr s2 = false := by simpa [itemHasAF] using hA2
     simp only [(binOps_ne ho).1, (binOps_ne ho).2, if_false, isFloat, l1, ho, itemHasAF, hasAF_of_getAF g1, hA2',
-      opScal, hr, Bool.not_true, Bool.false_eq_true, t2, hz]
+      hr, Bool.not_true, Bool.false_eq_true, t2]
   | num v =>
     simp only [(binOps_ne ho).1, (binOps_ne ho).2, if_false, isFloat, l1, ho, itemHasAF, hasAF_of_getAF g1,
-      opScal, hr, Bool.not_true, Bool.false_eq_true, t2, hz]
+      hr, Bool.not_true, Bool.false_eq_true, t2]
   | unit => simp [itemVal] at h2
 
 /-- number ∘ feature (`sr+`, `sr-`, …) -/
@@ -390,18 +396,17 @@ theorem applyOp_litvec (tr : Tr α) (i1 i2 : Item α) (o : Char) (k : Nat) (a c 
   obtain ⟨s2, rfl, l2, g2⟩ := itemVal_vec h2
   obtain ⟨f1, t1, _⟩ := itemVal_lit h1
   have hA1 := itemHasAF_lit hl h1
-  have hr := runVoid_fresh tr k (fun t => do let a ← getAF t s2; svOp o b a) c hn (hf k (Nat.le_refl k))
-    (by simp only [getAF_ext _ g2]; exact hv)
+  have hr := opScalRev_fresh tr o s2 k a c b hn (hf k (Nat.le_refl k)) g2 hv
   unfold applyOperation
   cases i1 with
   | tok s1 =>
     have hA1' : hasAF tr s1 = false := by simpa [itemHasAF] using hA1
     have l1 : litOf (α := α) s1 = some b := by simpa [isFloat] using f1
     simp only [(binOps_ne ho).1, (binOps_ne ho).2, if_false, isFloat, l1, l2, ho, itemHasAF, hasAF_of_getAF g2, hA1',
-      opScalRev, hr, Bool.not_true, Bool.false_eq_true, t1]
+      hr, Bool.not_true, Bool.false_eq_true, t1]
   | num v =>
     simp only [(binOps_ne ho).1, (binOps_ne ho).2, if_false, f1, isFloat, l2, ho, itemHasAF, hasAF_of_getAF g2,
-      opScalRev, hr, Bool.not_true, Bool.false_eq_true, t1]
+      hr, Bool.not_true, Bool.false_eq_true, t1]
   | unit => simp [itemVal] at h1
 
 
@@ -971,15 +976,8 @@ theorem opScal_denote (tr : Tr α) (o : Char) (a lit out : Str) (ca : List α) (
     (hn : tr.n ≠ 0) (hr : isReserved out = false) (hlk : lookup out tr.feats = none) :
     (opScal tr o a s out).1.map Val.vec = denoteM tr (.bin o (.var a) (.num lit)) := by
   simp only [denoteM, ga, hs, Except.map, ok_bind, nodeBin]
-  unfold opScal
-  by_cases hz : (o = '/' && isZero s) = true
-  · simp only [hz, if_true]
-    simp only [Bool.and_eq_true, decide_eq_true_eq] at hz
-    obtain ⟨rfl, hz⟩ := hz
-    simp [vsOp, hz]
-  · simp only [hz, if_false, Bool.false_eq_true]
-    rw [runVoid_new_fst tr out _ hn hr hlk]
-    simp only [getAF_ext _ ga, ok_bind]
+  rw [opScal, runVoid_new_fst tr out _ hn hr hlk]
+  simp only [getAF_ext _ ga, ok_bind]
 
 theorem opScalRev_denote (tr : Tr α) (o : Char) (a lit out : Str) (ca : List α) (s : α)
     (ga : getAF tr a = .ok ca) (hs : litOf lit = some s)
